@@ -1,99 +1,1 @@
-/-
-GENERATED by vextract (strgen.go) from the Go source (parser.go, anytype.go) — do not edit.
-
-A statement-by-statement translation of `unquoteJSON` (with its closure `hex4`), `quoteJSON` and
-`ParseFile`.  The restructuring rules S1–S9 (byte loops as character loops, the index as a suffix,
-loops as recursive functions, builders as accumulators, failure results as `Option`) are written
-down at the top of vextract/strgen.go.  Lemmas/StrGenEq.lean proves every definition equal to the
-hand-written model, so a change of the Go source that alters the behaviour breaks the build.
--/
-import Anytype.Model.Parser
-namespace Anytype.Generated.SG
-open Anytype
-
-/-- the loop of `unquoteJSON.hex4` at parser.go:51, run for the remaining `n` of its 4 iterations over the suffix (rule S4b) -/
-def unquoteJSON_hex4_loop1Gen : Nat → Str → Nat → Option Nat
-  | 0, _, r =>
-    some r
-  | _ + 1, [], _ => none
-  | n + 1, c :: rest, r =>
-    if '0' ≤ c ∧ c ≤ '9' then unquoteJSON_hex4_loop1Gen n rest ((r <<< 4) ||| (c.toNat - 48))
-    else if 'a' ≤ c ∧ c ≤ 'f' then unquoteJSON_hex4_loop1Gen n rest ((r <<< 4) ||| ((c.toNat - 97) + 10))
-    else if 'A' ≤ c ∧ c ≤ 'F' then unquoteJSON_hex4_loop1Gen n rest ((r <<< 4) ||| ((c.toNat - 65) + 10))
-    else none
-
-/-- the closure `hex4` of `unquoteJSON` (parser.go:46); `none` = `return 0, false` (rules S6, S7) -/
-def unquoteJSON_hex4Gen (s : Str) : Option Nat :=
-  if s.length < 4 then none
-  else unquoteJSON_hex4_loop1Gen 4 s 0
-
-/-- the loop of `unquoteJSON` at parser.go:67 on the suffix at the index (rules S3, S4c); `none` = a failure return or exhausted fuel -/
-def unquoteJSON_loop1Gen : Nat → Str → Str → Option Str
-  | 0, _, _ => none
-  | fuel + 1, s, result =>
-    match s with
-    | [] => some result
-    | c0 :: t0 =>
-      if c0 != '\\' then unquoteJSON_loop1Gen fuel t0 (result ++ [c0])
-      else
-        match t0 with
-        | [] => none
-        | c1 :: t1 =>
-          if c1 == '"' || c1 == '\\' || c1 == '/' then unquoteJSON_loop1Gen fuel t1 (result ++ [c1])
-          else if c1 == 'b' then unquoteJSON_loop1Gen fuel t1 (result ++ ['\x08'])
-          else if c1 == 'f' then unquoteJSON_loop1Gen fuel t1 (result ++ ['\x0c'])
-          else if c1 == 'n' then unquoteJSON_loop1Gen fuel t1 (result ++ ['\n'])
-          else if c1 == 'r' then unquoteJSON_loop1Gen fuel t1 (result ++ ['\r'])
-          else if c1 == 't' then unquoteJSON_loop1Gen fuel t1 (result ++ ['\t'])
-          else if c1 == 'u' then
-            match unquoteJSON_hex4Gen t1 with
-            | none => none
-            | some r =>
-              if 0xD800 ≤ r ∧ r < 0xE000 then
-                if r < 0xDC00 then
-                  match List.drop 4 t1 with
-                  | c2 :: c3 :: t3 =>
-                    if c2 == '\\' then
-                      if c3 == 'u' then
-                        match unquoteJSON_hex4Gen t3 with
-                        | none => unquoteJSON_loop1Gen fuel (List.drop 4 t1) (result ++ [charOfNat 0xFFFD])
-                        | some low =>
-                          if 0xDC00 ≤ low ∧ low < 0xE000 then unquoteJSON_loop1Gen fuel (List.drop 4 t3) (result ++ [charOfNat ((((r - 0xD800) <<< 10) ||| (low - 0xDC00)) + 0x10000)])
-                          else unquoteJSON_loop1Gen fuel (List.drop 4 t1) (result ++ [charOfNat 0xFFFD])
-                      else unquoteJSON_loop1Gen fuel (List.drop 4 t1) (result ++ [charOfNat 0xFFFD])
-                    else unquoteJSON_loop1Gen fuel (List.drop 4 t1) (result ++ [charOfNat 0xFFFD])
-                  | _ => unquoteJSON_loop1Gen fuel (List.drop 4 t1) (result ++ [charOfNat 0xFFFD])
-                else unquoteJSON_loop1Gen fuel (List.drop 4 t1) (result ++ [charOfNat 0xFFFD])
-              else unquoteJSON_loop1Gen fuel (List.drop 4 t1) (result ++ [charOfNat r])
-          else none
-
-/-- `unquoteJSON` (parser.go:45) -/
-def unquoteJSONGen (str : Str) : Str :=
-  (unquoteJSON_loop1Gen (str.length + 1) str []).getD []
-
-/-- the loop of `quoteJSON` at anytype.go:157 over the remaining characters (rule S4a); the statements behind the loop are the exit arm -/
-def quoteJSON_loop1Gen : Str → Str → Str
-  | [], result =>
-    result ++ ['"']
-  | c :: rest, result =>
-    if c == '"' then quoteJSON_loop1Gen rest (result ++ ['\\', '"'])
-    else if c == '\\' then quoteJSON_loop1Gen rest (result ++ ['\\', '\\'])
-    else if c == '\x08' then quoteJSON_loop1Gen rest (result ++ ['\\', 'b'])
-    else if c == '\x0c' then quoteJSON_loop1Gen rest (result ++ ['\\', 'f'])
-    else if c == '\n' then quoteJSON_loop1Gen rest (result ++ ['\\', 'n'])
-    else if c == '\r' then quoteJSON_loop1Gen rest (result ++ ['\\', 'r'])
-    else if c == '\t' then quoteJSON_loop1Gen rest (result ++ ['\\', 't'])
-    else if c.toNat < 0x20 then quoteJSON_loop1Gen rest (result ++ ['\\', 'u', '0', '0', ['0', '1', '2', '3', '4', '5', '6', '7', '8', '9', 'a', 'b', 'c', 'd', 'e', 'f'].getD (c.toNat >>> 4) '\x00', ['0', '1', '2', '3', '4', '5', '6', '7', '8', '9', 'a', 'b', 'c', 'd', 'e', 'f'].getD (c.toNat &&& 0xf) '\x00'])
-    else quoteJSON_loop1Gen rest (result ++ [c])
-
-/-- `quoteJSON` (anytype.go:153) -/
-def quoteJSONGen (str : Str) : Str :=
-  quoteJSON_loop1Gen str ['"']
-
-/-- `ParseFile` (parser.go:540); `fs` is `os.ReadFile` (rule S9) -/
-def parseFileGen (fs : String → Option (List UInt8)) (path : String) : Except PErr JVal :=
-  match fs path with
-  | none => .error ⟨.io, none⟩
-  | some data => parseObjectBytes data
-
-end Anytype.Generated.SG
+#check (vextract_translation_failed : "parser.go:546:2: ParseFile: unrecognised statement text := strings.TrimPrefix(string(data), \"\\ufeff\")")
